@@ -234,6 +234,8 @@ def obligations(tier, rng):
     scheds = [[[[0, 1, 2], [3], []], [[0], [1, 2], [3]]],          # x ahead of y
               [[[0], [1], [2, 3]], [[0, 1, 2], [], [3]]],          # y ahead of x
               [[[0, 1], [], [2, 3]], [[0], [1, 2, 3], []]]]
+    # every binary dense online operation directly over two variables of which one lags behind for one update
+    ahead += [(k, X, Y) for k in BIN if k != 'since' or not quick]
     for fam, fs, pst in (('ahead', ahead, False), ('aheadp', ahead_p, True)):
         for f in fs:
             for sc in (scheds[:2] if quick else scheds):
